@@ -311,7 +311,7 @@ func (b *windowTimeBuffer) purge(oldest time.Time, inclusive bool) {
 		}
 		b.size = b.stop - b.start
 	} else {
-		if include(b.window[l-1].Time()) {
+		if b.start < l && include(b.window[l-1].Time()) {
 			for ; b.start < l; b.start++ {
 				if include(b.window[b.start].Time()) {
 					break
